@@ -76,7 +76,7 @@ pub fn eval_bytes(x: &[u8], how: &str, obs: &mut Obs) -> Result<(), Fail> {
 
 impl Prop for C04 {
     const ID: &'static str = "C04";
-    const RULE: &'static str = "G5: G4 encodings and real meter payloads under 1..2 mutations (flip / insert / delete / truncate / extend / splice, list arity +-1, type nibble, body / time / list tag, end marker, checksum byte, any TLF replaced by one declaring 0..20, 2^8+-1, 2^16+-1, 2^24+-1, 2^31+-1, 2^32-3..2^32-1 or >= 2^32 in 9..12 nibbles), each with probability 1/2 followed by checksum fix-up of every locatable message; plus valid files and random bytes. Oracle: the independent reader R3 - it accepts => both parsers return exactly its value; it rejects => both return an error (kind not compared). Non-trivial: the reference accepts a non-empty input, or rejects a non-random input for a reason other than a checksum mismatch (i.e. a structural check decides). Distinct = distinct byte strings.";
+    const RULE: &'static str = "G5: G4 encodings and real meter payloads under 1..2 mutations (flip / insert / delete / truncate / extend / splice, list arity +-1, type nibble, body / time / list tag, end marker, checksum byte, any TLF replaced by one declaring 0..20, 2^8+-1, 2^16+-1, 2^24+-1, 2^31+-1, 2^32-3..2^32-1 or >= 2^32 in 9..12 nibbles), each with probability 1/2 followed by checksum fix-up of every locatable message; plus grammar-level mutations of the parsed TLV tree (retype / resize a primitive, replace a node by an absent marker / integer of any width / boolean / list, drop / duplicate / insert / swap / wrap / unwrap children, non-minimal TLFs) written back with self-consistent TLFs and recomputed checksums, valid files and random bytes. Oracle: the independent reader R3 - it accepts => both parsers return exactly its value; it rejects => both return an error (kind not compared). Non-trivial: the reference accepts a non-empty input, or rejects a non-random input for a reason other than a checksum mismatch (i.e. a structural check decides). Distinct = distinct byte strings.";
     type Case = PCase;
     type Input = PInput;
 
@@ -106,7 +106,7 @@ impl Prop for C04 {
     }
 
     fn exhaustive_desc(_tier: Tier) -> String {
-        format!("every real meter payload in corpus-seed/sml ({} files) unmodified, with each single byte deleted at 16 evenly spaced offsets, and truncated at 16 evenly spaced offsets, with and without checksum fix-up", real_payloads().len())
+        format!("every real meter payload in corpus-seed/sml ({} files) unmodified, with each single byte deleted at 16 evenly spaced offsets, and truncated at 16 evenly spaced offsets, with and without checksum fix-up; plus the complete single-mutation neighbourhood of 6 real payloads under the grammar-level catalogue ({} mutations: every retype, resize 0..=9, replacement by absent / unsigned / signed / octet of width 0..=9 / boolean / empty list / list of 1..=8 absent markers, drop, dup, insert, swap, wrap, unwrap, tag bytes, extra TLF byte) at every node, checksums recomputed", real_payloads().len(), crate::gen::tree::catalogue().len())
     }
 
     fn exhaustive(_tier: Tier, shard: usize, nshards: usize, f: &mut dyn FnMut(&PInput) -> bool) {
@@ -133,5 +133,6 @@ impl Prop for C04 {
                 g += 1;
             }
         }
+        crate::gen::tree::neighbourhood(shard, nshards, &mut |bytes, how| f(&PInput { bytes, how }));
     }
 }
